@@ -302,7 +302,7 @@ func c10runJob(j c10job) (out c10out) {
 	}
 	var wg sync.WaitGroup
 	var pan atomic.Value
-	var othersLeft, pollersLeft int32
+	var othersLeft, pollersLeft, quotaLeft int32
 	usesResult := false
 	for _, n := range j.Methods {
 		if n == "GetContent" {
@@ -314,6 +314,7 @@ func c10runJob(j c10job) (out c10out) {
 			pollersLeft++
 		} else {
 			othersLeft++
+			quotaLeft++
 		}
 	}
 	for _, n := range j.Methods {
@@ -342,13 +343,26 @@ func c10runJob(j c10job) (out c10out) {
 				// when a later writer comes by, so those jobs run longer still
 				n *= 8
 				if usesResult {
-					n *= 5
+					n *= 3
 				}
 			} else {
 				n *= 4
 			}
 			for i := 0; i < n; i++ {
 				m.f(s, i)
+			}
+			if m.name != "PollEvent" {
+				// the loops end together: a cheap loop keeps going (beyond its count) until the
+				// slowest one has done its share, so the goroutines overlap for the whole job
+				atomic.AddInt32(&quotaLeft, -1)
+				if m.name != "Sync" && m.name != "Show" {
+					for i := n; atomic.LoadInt32(&quotaLeft) > 0; i++ {
+						m.f(s, i)
+						if i%8 == 0 {
+							runtime.Gosched()
+						}
+					}
+				}
 			}
 			if m.name == "PollEvent" {
 				// the application under test keeps consuming events until its other goroutines
